@@ -6907,7 +6907,7 @@ def subn(
 
                     elif parenta_cls is arguments:
                         if (field in _NODE_ARGUMENTS_ARGS_ALL_FIELDS
-                            and (not repl_slot_new or repl_slot_new.a.__class__ is arguments)
+                            and (not repl_slot_new or (isinstance(repl_slot_new, fst.FST) and repl_slot_new.a.__class__ is arguments))  # could be str identifier
                         ):
                             virt_field = '_all'
                             allargs = parent._cached_allargs()
